@@ -13,7 +13,7 @@ from mzverif.core import Sub, call, require
 
 ID = "C17"
 LEVEL = "exploration"
-TECHNIQUE = "independent renderer + explicit-loop post-processing compared pixel for pixel: Hypothesis over hand-built and generated mazes (square, oblong, int8..int64 / Fortran-ordered arrays, 33..100 cells per side), same-flags-other-shape twins, repeated rasterization of one object, datasets and batches (up to 1025 indices, compared with model-verified images), config-driven routes (from_config_augmented, make_numpy_collection); batches kept by the caller while further batches are fetched"
+TECHNIQUE = "independent renderer + explicit-loop post-processing compared pixel for pixel: Hypothesis over hand-built and generated mazes (square, oblong, int8..int64 / Fortran-ordered arrays, 33..100 cells per side), same-flags-other-shape twins, repeated rasterization of one object, datasets and batches (up to 1025 indices, compared with model-verified images), config-driven routes (from_config_augmented, make_numpy_collection); batches kept by the caller while further batches are fetched; the same check on several cases at once, one thread each (interleavings sampled)"
 RULE = (
     "case = (solved maze given as bits+solution or as a seeded generator call, remove_isolated_cells, extend_pixels, endpoints_as_open"
     "[, dataset items + index list]). Non-trivial = solution of >= 3 cells and (an isolated non-wall pixel exists in input or target "
@@ -316,6 +316,7 @@ def subs(tier: str):
     q = tier == "quick"
     return [
         Sub("hand-mazes", check, "hypothesis", strategy=lambda: _hand(10), examples=150 if q else 5000),
+        Sub("concurrent-threads", core.threaded(check), "hypothesis", strategy=core.threaded_strategy(lambda: _hand(8)), examples=8 if q else 150, ambient=False),
         Sub("generated-mazes", check, "hypothesis", strategy=lambda: _gen(10), examples=100 if q else 3000),
         Sub("same-flags-other-shape", check_twins, "hypothesis", strategy=_twins, examples=10 if q else 200),
         Sub("large-grids-int8", check, "hypothesis", strategy=_big, examples=3 if q else 40),
